@@ -137,7 +137,18 @@ impl RateLoader {
     ) -> Result<Option<DailyRate>, SError> {
         let year = trade_date.year() as u32;
 
-        if !self.year_rates.contains_key(&year) {
+        // A year that was loaded from the cache earlier in this run was only validated
+        // against the date requested at that time. If it does not contain trade_date,
+        // validate the cache again (which downloads the year, at most once per run),
+        // instead of treating the date as one for which no rate was published.
+        let needs_load = match self.year_rates.get(&year) {
+            None => true,
+            Some(rates) => {
+                !rates.contains_key(&trade_date)
+                    && !self.fresh_loaded_years.contains(&year)
+            }
+        };
+        if needs_load {
             debug!("RateLoader::get_exact_usd_cad_rate {} not yet loaded", year);
             let rates = self.fetch_usd_cad_rates_for_date_year(&trade_date).await?;
             self.year_rates.insert(year, rates);
